@@ -218,6 +218,13 @@ def job_presets(ctx: Ctx, presets, atnums, method):
                 bad.append((preset, atnum, f"raises {type(ex).__name__}: {str(ex)[:80]}"))
                 continue
             problems = []
+            # which layout the table entry has is read off the data itself, not off the branch the code took: integer `rad` = number of shells per
+            # sector (one size per sector), floating `rad` = sector boundaries (one more size than boundaries)
+            counts_layout = np.issubdtype(np.asarray(rad).dtype, np.integer)
+            if counts_layout and cap["sizes"] is None:
+                problems.append(f"table entry stores shell counts {list(map(int, rad))} but they were used as sector radii")
+            if not counts_layout and cap["sizes"] is not None:
+                problems.append("table entry stores sector radii but they were used as shell counts")
             if cap["center"] is None or any(node_of(cap["center"][a]) is not node_of(c[a]) for a in range(3)):
                 problems.append("centre not handed on")
             if cap["rotate"] != 5:
@@ -239,9 +246,23 @@ def job_presets(ctx: Ctx, presets, atnums, method):
                 n_ok += 1
     ctx.paths += n_ok + len(bad)
     for preset, atnum, what in bad[:12]:
-        def replay(m, preset=preset, atnum=atnum):
+        def replay(m, preset=preset, atnum=atnum, what=what):
             with unpatched(an, ag, bg, ut):
                 cc = np.array([0.3, -0.7, 1.1])
+                if "shell counts" in what:
+                    # real API: a radial grid with exactly the tabulated number of shells, reaching beyond the largest count read as a radius
+                    d_ = np.load(os.path.join(base, f"prune_grid_{preset}.npz"))
+                    rad_, npt_ = d_[f"{atnum}_rad"], d_[f"{atnum}_npt"]
+                    n_ = int(np.sum(rad_))
+                    rgr = bg.OneDGrid(np.linspace(0.05, float(np.max(rad_)) * 1.5, n_), np.ones(n_), (0, np.inf))
+                    want_ = [int(npt_[i]) for i in range(len(rad_)) for _ in range(int(rad_[i]))]
+                    try:
+                        g_ = ag.AtomGrid.from_preset(atnum, preset, rgrid=rgr, method=method)
+                    except Exception as ex:
+                        return True, dict(preset=preset, atnum=atnum, radial_points=n_, raised=f"{type(ex).__name__}: {ex}")
+                    got_ = np.diff(g_.indices).tolist()
+                    ok_ = all(g >= w for g, w in zip(got_, want_)) and len(got_) == len(want_)
+                    return (not ok_), dict(preset=preset, atnum=atnum, shell_sizes=got_[:8], tabulated=want_[:8])
                 at = ag.AtomGrid.from_preset(atnum, preset, rgrid=None if preset not in ("sg_1",) or atnum <= 19 else None, center=cc, rotate=0, method=method) if False else None
                 try:
                     cap = Capture.from_preset(atnum, preset, rgrid=rg, center=cc, rotate=5, method=method).cap
@@ -294,9 +315,14 @@ def jobs(tier):
     if tier == "thorough":
         js.append(Job("sectors/3x2", job_sectors, 3, 2))
     all_presets = ["coarse", "medium", "fine", "veryfine", "ultrafine", "insane", "sg_0", "sg_1", "sg_2", "sg_3", "g1", "g2", "g3", "g4", "g5", "g6", "g7"]
-    els = [1, 6, 8, 17, 20, 26, 35] if tier == "quick" else list(range(1, 87))
+    els = [1, 6, 8, 17, 19, 20, 26, 35] if tier == "quick" else list(range(1, 87))
     for method in ("lebedev", "ahrens_beylkin", "spherical"):
-        js.append(Job(f"presets/{method}", job_presets, all_presets, els, method))
+        # the table layout does not depend on the method: all 86 elements are walked with Lebedev on every run
+        if method == "lebedev" or tier == "thorough":
+            for lo in range(1, 87, 15):
+                js.append(Job(f"presets/{method}/Z={lo}-{min(lo + 14, 86)}", job_presets, all_presets, list(range(lo, min(lo + 15, 87))), method))
+        else:
+            js.append(Job(f"presets/{method}", job_presets, all_presets, els, method))
     only = os.environ.get("SYMGRID_ONLY")
     return [j for j in js if not only or only in j.name]
 
@@ -307,7 +333,7 @@ def main():
     return harness.finish(
         PROP, res, t0, "DESIGN.md#c05",
         bounds=dict(shells="2-3 shells with symbolic radii (r_0 >= 0 incl. 0), weights and centre", degrees="the smallest shipped degrees of each of the 4 methods", rotation="seeds 0, 1, 5, 9, 37",
-                    sectors="1-3 symbolic sector radii x 2-3 symbolic radial points", presets="17 presets x 7 (quick) / 86 elements x 3 methods: argument fan-out with a symbolic centre"),
+                    sectors="1-3 symbolic sector radii x 2-3 symbolic radial points", presets="17 presets x 86 elements (Lebedev) + x 8 elements (2 other methods) (quick) / 86 elements x 3 methods: argument fan-out with a symbolic centre"),
         outside=["integrals of g(r) Y_lm factorising (corollary of the shell identities and C02)", "higher degrees than the smallest per method (the code path is degree-independent)",
                  "preset grids are checked at the level of the arguments handed to the constructor, not by building every grid"],
         assumptions=["np.load contents lifted to exact constants", "Rotation.random(seed).as_matrix() run natively; orthogonality is a ground fact at 1e-12"])
